@@ -35,3 +35,14 @@ package transactions
 //@   modifies me.txns
 //@   ensures removed: !(key in me.txns) && result == old(key in me.txns)
 //@   ensures others-untouched: forall k Key :: k != key ==> (k in me.txns) == old(k in me.txns) && me.txns[k] == old(me.txns[k])
+
+// C07: transaction IDs are the varint encodings of a counter that only goes up, handed out under a mutex
+//@ func (*dht/transactions.varintIdIssuer).Issue
+//@   requires nonnil: me != nil
+//@   requires unlocked: !held(me.mu)
+//@   requires fewer-than-2-to-the-62-ids-issued: uint64(me.next) < 4611686018427387904
+//@   modifies me.buf, me.next
+//@   ensures counter-advances-by-one: uint64(me.next) == old(uint64(me.next)) + 1
+//@   ensures id-is-the-encoding-of-the-old-counter: result == uvarintstr(old(uint64(me.next)))
+//@   callsite encoding/binary.PutUvarint encodes-the-counter: $x == me.next && wheld(me.mu)
+//@ lemma issued-ids-differ: forall a, b uint64 :: a != b ==> uvarintstr(a) != uvarintstr(b)
